@@ -611,6 +611,28 @@ theorem CInv.refinish {l0 l : List α} {live : List Manifest} {m : Manifest}
   · intro e he c hc heq
     exact h2 e (List.mem_filter.mp he).1 c hc heq
 
+/-- Removing any entries attributed to a live container keeps the invariant. -/
+theorem CInv.partial {l0 l : List α} {live : List Manifest} {m : Manifest} {r : α → Bool}
+    (hinv : CInv tag rm tg l0 l live) (hmem : m ∈ live)
+    (hr : ∀ e, r e = true → tag e = tg m) :
+    CInv tag rm tg l0 (l.filter (fun e => !r e)) live := by
+  obtain ⟨h1, h2⟩ := hinv
+  refine ⟨?_, ?_⟩
+  · rw [List.filter_filter, ← h1]
+    apply List.filter_congr
+    intro e _
+    by_cases hl : tag e ∈ live.map tg
+    · simp [hl]
+    · have h4 : r e = false := by
+        cases hre : r e with
+        | false => rfl
+        | true =>
+          exfalso; apply hl
+          rw [hr e hre]; exact List.mem_map_of_mem hmem
+      simp [hl, h4]
+  · intro e he c hc heq
+    exact h2 e (List.mem_filter.mp he).1 c hc heq
+
 end Generic
 
 /-! ### Interleavings of several containers -/
@@ -633,6 +655,7 @@ def OpOk (s : Sys) : Op → Prop
   | .start m => m.shared = false → ∀ c ∈ s.live, c.owner ≠ m.owner ∧ c.vip ≠ m.vip
   | .finish m => ∀ c ∈ s.live, c.owner = m.owner → c = m
   | .refinish m => ∀ c ∈ s.live, c.owner = m.owner → c = m
+  | .cutfinish m _ => ∀ c ∈ s.live, c.owner = m.owner → c = m
 
 def Valid (s : Sys) : List Op → Prop
   | [] => True
@@ -811,12 +834,63 @@ theorem SInv.cleanup {h0 : Host} {s : Sys} {m : Manifest} (release : Bool) (hinv
         · show CInv _ _ _ _ (applyUnregs _ _).infra _
           rw [e4]; exact CInv.finish _ _ _ hinv.infra hc uv r4 hl'
 
+theorem SInv.cleanupCut {h0 : Host} {s : Sys} {m : Manifest} (k : Nat) (hinv : SInv h0 s)
+    (hok : ∀ c ∈ s.live, c.owner = m.owner → c = m) : SInv h0 (sysCleanupCut k m s) := by
+  unfold sysCleanupCut
+  by_cases hs : m.shared = true
+  · simp only [hs, ↓reduceIte]; exact hinv
+  · simp only [hs, Bool.false_eq_true, ↓reduceIte, netGet]
+    cases hf : findLive m.owner s.live with
+    | none => exact hinv
+    | some c =>
+      obtain ⟨hc, hco⟩ := findLive_some _ _ _ hf
+      have hcm : c = m := hok c hc hco
+      subst hcm
+      simp only [Option.map_some]
+      have hsub : ∀ u, u ∈ (finishOps c.vip c.ext c).take k → u ∈ finishOps c.vip c.ext c :=
+        fun u hu => List.mem_of_mem_take hu
+      have hwf' := applyUnregs_wf ((finishOps c.vip c.ext c).take k) s.host hinv.wf
+      have e1 : (applyUnregs s.host ((finishOps c.vip c.ext c).take k)).rules =
+          s.host.rules.filter (fun e => !decide (Unreg.rule e.1 e.2 ∈ (finishOps c.vip c.ext c).take k)) := by
+        rw [applyUnregs_rules _ _ hinv.wf]; apply List.filter_congr; intro e _; simp
+      have e2 : (applyUnregs s.host ((finishOps c.vip c.ext c).take k)).specs =
+          s.host.specs.filter (fun e => !decide (Unreg.specsOf e.1.app e.2 ∈ (finishOps c.vip c.ext c).take k)) := by
+        rw [applyUnregs_specs]; apply List.filter_congr; intro e _; simp
+      have e3 : (applyUnregs s.host ((finishOps c.vip c.ext c).take k)).vring =
+          s.host.vring.filter (fun e => !decide (Unreg.vring e ∈ (finishOps c.vip c.ext c).take k)) := by
+        rw [applyUnregs_vring]; apply List.filter_congr; intro e _; simp
+      have e4 : (applyUnregs s.host ((finishOps c.vip c.ext c).take k)).infra =
+          s.host.infra.filter (fun e => !decide (Unreg.infra e ∈ (finishOps c.vip c.ext c).take k)) := by
+        rw [applyUnregs_infra]; apply List.filter_congr; intro e _; simp
+      refine ⟨hwf', hinv.priv, hinv.vips, ?_, ?_, ?_, ?_⟩
+      · show CInv _ _ _ _ (applyUnregs _ _).rules _
+        rw [e1]
+        refine CInv.partial _ _ _ hinv.rules hc ?_
+        intro e he
+        exact finishOps_rule_owner _ _ c _ _ (hsub _ (by simpa using he))
+      · show CInv _ _ _ _ (applyUnregs _ _).specs _
+        rw [e2]
+        refine CInv.partial _ _ _ hinv.specs hc ?_
+        intro e he
+        exact ((finishOps_specs _ _ c _ _).mp (hsub _ (by simpa using he))).2
+      · show CInv _ _ _ _ (applyUnregs _ _).vring _
+        rw [e3]
+        refine CInv.partial _ _ _ hinv.vring hc ?_
+        intro e he
+        exact ((finishOps_vring _ _ c _).mp (hsub _ (by simpa using he))).2
+      · show CInv _ _ _ _ (applyUnregs _ _).infra _
+        rw [e4]
+        refine CInv.partial _ _ _ hinv.infra hc ?_
+        intro e he
+        exact finishOps_infra_ip _ _ c _ (hsub _ (by simpa using he))
+
 theorem SInv.step {h0 : Host} {s : Sys} {op : Op} (hinv : SInv h0 s) (hok : OpOk s op)
     (hfresh : OwnedFresh h0 op.man) : SInv h0 (sysStep s op) := by
   cases op with
   | start m => exact SInv.start hinv hok hfresh
   | finish m => exact SInv.cleanup true hinv hok
   | refinish m => exact SInv.cleanup false hinv hok
+  | cutfinish m k => exact SInv.cleanupCut k hinv hok
 
 theorem SInv.run {h0 : Host} (ops : List Op) : ∀ s : Sys, SInv h0 s → Valid s ops →
     (∀ op ∈ ops, OwnedFresh h0 op.man) → SInv h0 (sysRun s ops) := by
@@ -888,6 +962,27 @@ theorem sysStep_frame (s : Sys) (op : Op) (p q : Nat → Bool) (hp : p op.man.ow
           have hcm : c = m := hok c hc hco
           subst hcm
           have := applyUnregs_frame c.owner c.vip p q hp hq (finishOps c.vip c.ext c) s.host (finishOps_own _ _ c)
+          exact ⟨this.2.2.1, this.2.2.2⟩
+
+  | cutfinish m k =>
+    simp only [sysStep, sysCleanupCut, Op.man] at hp ⊢
+    by_cases hs : m.shared = true
+    · simp [hs]
+    · simp only [hs, Bool.false_eq_true, ↓reduceIte, netGet]
+      cases hf : findLive m.owner s.live with
+      | none => simp
+      | some c =>
+        simp only [Option.map_some]
+        have hown : ∀ v x (m' : Manifest), ∀ u ∈ (finishOps v x m').take k, OwnU m'.owner v u :=
+          fun v x m' u hu => finishOps_own v x m' u (List.mem_of_mem_take hu)
+        refine ⟨?_, ?_⟩
+        · have := applyUnregs_frame m.owner c.vip p (fun _ => false) hp rfl ((finishOps c.vip c.ext m).take k) s.host (hown _ _ m)
+          exact ⟨this.1, this.2.1⟩
+        · intro hok hq
+          obtain ⟨hc, hco⟩ := findLive_some _ _ _ hf
+          have hcm : c = m := hok c hc hco
+          subst hcm
+          have := applyUnregs_frame c.owner c.vip p q hp hq ((finishOps c.vip c.ext c).take k) s.host (hown _ _ c)
           exact ⟨this.2.2.1, this.2.2.2⟩
 
 /-! ### Port allocation -/
